@@ -178,9 +178,7 @@ func cmdCheck(args []string) int {
 	nHarness := 0
 
 	for gi, g := range spec.Groups {
-		overlay := map[string]string{
-			filepath.Join(*repo, "internal/verifsym/sym.go"): filepath.Join(*verif, "harness/verifsym/sym.go"),
-		}
+		overlay := symOverlay(*verif, *repo)
 		pkgDir := filepath.Join(*repo, strings.TrimPrefix(g.Pkg, "./"))
 		for _, f := range g.Files {
 			overlay[filepath.Join(pkgDir, "zz_verif_"+filepath.Base(f))] = filepath.Join(*verif, "harness", f)
@@ -337,6 +335,16 @@ func matchKnown(k *KnownFile, id string, v *Violation) *KnownFinding {
 	return nil
 }
 
+// symOverlay maps every file of /verif/harness/verifsym into /repo/internal/verifsym.
+func symOverlay(verif, repo string) map[string]string {
+	ov := map[string]string{}
+	files, _ := filepath.Glob(filepath.Join(verif, "harness/verifsym/*.go"))
+	for _, f := range files {
+		ov[filepath.Join(repo, "internal/verifsym", filepath.Base(f))] = f
+	}
+	return ov
+}
+
 // ---------- native replay ----------
 
 type replayResult struct {
@@ -451,10 +459,8 @@ func runReplay(verif, repo, dir string, g Group, pkgName string, fns []*ssa.Func
 		return "", err
 	}
 	pkgDir := filepath.Join(repo, strings.TrimPrefix(g.Pkg, "./"))
-	repl := map[string]string{
-		filepath.Join(repo, "internal/verifsym/sym.go"):     filepath.Join(verif, "harness/verifsym/sym.go"),
-		filepath.Join(pkgDir, "zz_verif_replay_test.go"): testPath,
-	}
+	repl := symOverlay(verif, repo)
+	repl[filepath.Join(pkgDir, "zz_verif_replay_test.go")] = testPath
 	for _, f := range g.Files {
 		// keep a copy of the harness with the replay so it stays self-contained
 		src := filepath.Join(verif, "harness", f)
